@@ -67,6 +67,10 @@ def main():
         rc, o = sh("git -C /repo status --porcelain --untracked-files=no")
         assert o.strip() == "", "repo not clean: " + o
         rc, o = sh("git -C /repo apply %s" % patch)
+        # evidence written while a seeded change is applied must not replace the clean tree's records
+        keep = os.path.join(VERIF, ".cache", "evidence_keep")
+        shutil.rmtree(keep, ignore_errors=True)
+        shutil.copytree(os.path.join(VERIF, "evidence"), keep)
         try:
             for p in props:
                 rc, o = sh("./check %s --tier quick" % p, cwd=VERIF, timeout=3000)
@@ -75,6 +79,9 @@ def main():
                 print(p, "exit", rc, *viol[:4], sep="\n   ")
         finally:
             sh("git -C /repo checkout -- .")
+            shutil.rmtree(os.path.join(VERIF, "evidence"), ignore_errors=True)
+            shutil.copytree(keep, os.path.join(VERIF, "evidence"))
+            shutil.rmtree(keep, ignore_errors=True)
         meta2 = dict(meta)
         meta2.update({"seed_id": sid, "base_commit": head, "confirmed": ran, "checks": results,
                       "caught_by": [p for p, r in results.items() if r["exit"] == 1]})
